@@ -101,6 +101,22 @@ package hackpadfs
 //@                         world() == old(worldAfter("hackpadfs.(FS).Open", fs.rootFS, pjoin(fs.basePath, name))))
 //@   nopanic
 
+// Rename through a view is Rename in the parent at the joined names (C07); invalid names change nothing (C04); a
+// *LinkError comes back under the names the caller used (C05).
+//@ spec svOld(fs *subFS, o string) := pjoin(fs.basePath, o)
+//@ spec svRenErr(fs *subFS, o string, n string) := ret("hackpadfs.Rename", 0, fs.rootFS, svOld(fs, o), svOld(fs, n))
+//@ func (fs *subFS) Rename(oldname string, newname string) (err error)
+//@   props C07 C04 C05
+//@   modifies world()
+//@   requires fs != nil
+//@   ensures "gate" [C04 C05] implies(!VP(oldname) || !VP(newname), isLinkError(err) && oldOf(err) == oldname && newOf(err) == newname && errIs(err, ErrInvalid) && world() == old(world()))
+//@   ensures "delegates" [C07] implies(VP(oldname) && VP(newname), world() == old(worldAfter("hackpadfs.Rename", fs.rootFS, svOld(fs, oldname), svOld(fs, newname))) &&
+//@                         iff(err == nil, old(svRenErr(fs, oldname, newname)) == nil))
+//@   ensures "caller-names" [C05] implies(VP(oldname) && VP(newname) && isLinkError(old(svRenErr(fs, oldname, newname))),
+//@                         isLinkError(err) && oldOf(err) == oldname && newOf(err) == newname && innerErr(err) == innerErr(old(svRenErr(fs, oldname, newname))) && opOf(err) == opOf(old(svRenErr(fs, oldname, newname))))
+//@   ensures "other-errors" implies(VP(oldname) && VP(newname) && !isLinkError(old(svRenErr(fs, oldname, newname))), err == old(svRenErr(fs, oldname, newname)))
+//@   nopanic
+
 //@ func ValidPath(path string) (r bool)
 //@   inline
 
